@@ -395,7 +395,7 @@ func cmp3(lt, eq, gt ct.Bool) string {
 }
 func cmpBig(a, b *big.Int) string { return []string{"lt", "eq", "gt"}[a.Cmp(b)+1] }
 
-func hexList(xs []*big.Int) string {
+func c17hexList(xs []*big.Int) string {
 	out := make([]string, len(xs))
 	for i, x := range xs {
 		out[i] = x.Text(16)
